@@ -67,7 +67,13 @@ impl ServerState {
   /// - Global context updated
   /// - Dependency graph updated
   /// - recheck_set is the conservative estimate of moduled need to recheck
-  fn recheck(&mut self, mut error_set: ErrorSet, recheck_set: &HashSet<ModuleReference>) {
+  /// - reparsed is the set of modules whose syntax errors are in error_set
+  fn recheck(
+    &mut self,
+    mut error_set: ErrorSet,
+    reparsed: &HashSet<ModuleReference>,
+    recheck_set: &HashSet<ModuleReference>,
+  ) {
     // Type Checking (parallel)
     let parsed_modules = &self.parsed_modules;
     let global_cx = &self.global_cx;
@@ -90,8 +96,14 @@ impl ServerState {
     // Collating Errors
     let mut grouped_errors = error_set.group_errors();
     for rechecked_module in recheck_set {
-      if !grouped_errors.contains_key(rechecked_module) {
-        grouped_errors.insert(*rechecked_module, Vec::new());
+      let errors = grouped_errors.entry(*rechecked_module).or_default();
+      // A module that is checked again without having been parsed again keeps its syntax errors.
+      if !reparsed.contains(rechecked_module)
+        && self.parsed_modules.contains_key(rechecked_module)
+        && let Some(old_errors) = self.errors.remove(rechecked_module)
+      {
+        errors.extend(old_errors.into_iter().filter(|e| e.is_syntax_error()));
+        errors.sort();
       }
     }
     for (mod_ref, mod_scoped_errors) in grouped_errors {
@@ -140,8 +152,8 @@ impl ServerState {
       self.parsed_modules.insert(mod_ref, parsed);
     }
     self.dep_graph = DependencyGraph::new(&self.parsed_modules);
-    let recheck_set = self.dep_graph.affected_set(initial_update_set);
-    self.recheck(error_set, &recheck_set);
+    let recheck_set = self.dep_graph.affected_set(initial_update_set.clone());
+    self.recheck(error_set, &initial_update_set, &recheck_set);
   }
 
   pub fn rename_module(&mut self, renames: Vec<(ModuleReference, ModuleReference)>) {
@@ -149,8 +161,10 @@ impl ServerState {
     let recheck_set = self
       .dep_graph
       .affected_set(renames.iter().flat_map(|(a, b)| vec![*a, *b].into_iter()).collect());
+    let mut reparsed = HashSet::new();
     for (old_mod_ref, new_mod_ref) in renames {
       if let Some(source) = self.string_sources.remove(&old_mod_ref) {
+        reparsed.insert(new_mod_ref);
         self.parsed_modules.remove(&old_mod_ref).unwrap();
         let parsed = samlang_parser::parse_source_module_from_text(
           &source,
@@ -167,7 +181,7 @@ impl ServerState {
       self.checked_modules.remove(&old_mod_ref);
     }
     self.dep_graph = DependencyGraph::new(&self.parsed_modules);
-    self.recheck(error_set, &recheck_set);
+    self.recheck(error_set, &reparsed, &recheck_set);
   }
 
   pub fn remove(&mut self, module_references: &[ModuleReference]) {
@@ -179,7 +193,7 @@ impl ServerState {
       self.global_cx.remove(mod_ref);
     }
     self.dep_graph = DependencyGraph::new(&self.parsed_modules);
-    self.recheck(ErrorSet::new(), &recheck_set);
+    self.recheck(ErrorSet::new(), &HashSet::new(), &recheck_set);
   }
 }
 
